@@ -37,8 +37,10 @@ def cases(tier, seed):
                     rowsets = (tuple((fns[i], k) for i, k in enumerate(ks))
                                for ks in itertools.product(S.ROW_KINDS, repeat=m))
                 for rows in rowsets:
-                    for obj in objs:
-                        fm = FMTS if tier == "thorough" and n <= 2 and m >= 1 else [FMTS[idx % 4]]
+                    for oi, obj in enumerate(objs):
+                        if tier == "thorough" and n == 2 and m == 2 and oi == 2:
+                            continue  # the third objective with one row at most (bounds the thorough tier to about 20 minutes)
+                        fm = FMTS if tier == "thorough" and n <= 2 and m >= 1 and (m < 2 or oi == 0) else [FMTS[idx % 4]]
                         for fmt in fm:
                             for si in range(7):
                                 out.append({"n": n, "vk": list(vk), "rows": [list(r) for r in rows], "obj": obj,
